@@ -21,6 +21,29 @@ int main(int argc, char** argv) {
   cctz::TimeZoneInfo z;
   MemSource src(img.data(), img.size());
   if (!z.Load(&src)) return 1;
+  // the representation invariant the query code relies on, recomputed independently of Load's own bookkeeping
+  {
+    const auto& tr = z.transitions_; const auto& ty = z.transition_types_;
+    auto fail = [](const char* what, std::size_t i) { fprintf(stderr, "WF violated: %s (entry %zu)\n", what, i); return 3; };
+    if (tr.size() < 2 || ty.empty()) return fail("fewer than two transitions or no type", 0);
+    if (z.default_transition_type_ >= ty.size()) return fail("default type out of range", 0);
+    if (!(tr.front().unix_time < 0 && tr.back().unix_time >= 0)) return fail("first transition < 0 <= last transition", 0);
+    std::size_t prev = z.default_transition_type_;
+    for (std::size_t i = 0; i < tr.size(); i++) {
+      if (tr[i].type_index >= ty.size()) return fail("type_index out of range", i);
+      const auto utc = cctz::civil_second() + tr[i].unix_time;
+      if (tr[i].civil_sec != utc + ty[tr[i].type_index].utc_offset) return fail("civil_sec is not the transition instant read in its own type", i);
+      if (tr[i].prev_civil_sec != utc + ty[prev].utc_offset - 1) return fail("prev_civil_sec is not the second before, read in the previous type (default type for the first entry)", i);
+      if (i > 0 && !(tr[i - 1].unix_time < tr[i].unix_time)) return fail("unix_time not strictly increasing", i);
+      if (i > 0 && !(tr[i - 1].civil_sec < tr[i].civil_sec)) return fail("civil_sec not strictly increasing", i);
+      if (tr[i].unix_time < -(1LL << 59) || tr[i].unix_time > (1LL << 59)) return fail("transition time outside +-2^59", i);
+      prev = tr[i].type_index;
+    }
+    for (std::size_t t = 0; t < ty.size(); t++) {
+      if (ty[t].utc_offset <= -86400 || ty[t].utc_offset >= 86400) return fail("utc_offset outside +-24h", t);
+      if (ty[t].abbr_index >= z.abbreviations_.size()) return fail("abbr_index out of range", t);
+    }
+  }
   std::vector<std::int_fast64_t> ts = {INT64_MIN, INT64_MIN + 1, -1, 0, 1, INT64_MAX - 1, INT64_MAX};
   for (const auto& tr : z.transitions_) for (long d : {-1L, 0L, 1L}) {
     if ((d < 0 && tr.unix_time == INT64_MIN) || (d > 0 && tr.unix_time == INT64_MAX)) continue;
